@@ -192,6 +192,23 @@ def k2_contexts(tier):
     field_bits(mb, 80, 88, 90)                      # TAS 180 kt / inertial vertical velocity 2880 ft/min
     fx.update(mb)
     out.append(_c("B prec 5,0 over 6,0", 28, fx, R=True, CA=4, caps=ALL_CAPS, tags=("B", "prec", "bds50>bds60")))
+    # a signed field whose sign bit is set and whose magnitude is zero is a non-zero value field (track/heading 180 deg,
+    # track angle rate -16 deg/s): the register must still be recognised
+    def _mb(fields):
+        fx = df_fixed(20)
+        for b in range(33, 89):
+            fx[b] = 0
+        for sb, eb, val in fields:
+            field_bits(fx, sb, eb, val)
+        return fx
+    e50 = [(33, 33, 1), (44, 44, 1), (56, 56, 1), (67, 67, 1), (78, 78, 1), (57, 66, 100), (79, 88, 90)]
+    out.append(_c("B edge bds50 track=180", 28, _mb(e50 + [(35, 43, 16), (45, 45, 1), (46, 55, 0), (69, 77, 32)]), R=False, CA=4, caps=ALL_CAPS,
+                  tags=("B", "edge", "bds50", "track180")))
+    out.append(_c("B edge bds50 rate=-16", 28, _mb(e50 + [(35, 43, 16), (46, 55, 256), (68, 68, 1), (69, 77, 0)]), R=False, CA=4, caps=ALL_CAPS,
+                  tags=("B", "edge", "bds50", "rate-16")))
+    e60 = [(33, 33, 1), (45, 45, 1), (56, 56, 1), (67, 67, 1), (78, 78, 1), (46, 55, 256), (57, 66, 100), (69, 77, 32), (80, 88, 90)]
+    out.append(_c("B edge bds60 heading=180", 28, _mb(e60 + [(34, 34, 1), (35, 44, 0)]), R=False, CA=4, caps=ALL_CAPS,
+                  tags=("B", "edge", "bds60", "heading180")))
     # BDS 2,0 / 3,0 by selector
     for sel, nm in ((0x20, "bds20"), (0x30, "bds30"), (0x10, "bds10")):
         fx = field_bits(df_fixed(20), 33, 40, sel)
